@@ -24,5 +24,7 @@ def run(chk, repo):
     chk.trusted = ["json.dumps/json.loads round-trip int/float/str/bool/None/list/dict exactly (ensure_ascii default)",
                    "numpy str(datetime64) prints the full stored resolution"]
     chk.attempt(codec_roundtrip, chk, repo)
+    from .codec_rules import missing_stamps
+    chk.attempt(missing_stamps, chk, repo, "C08-K9")
     chk.attempt(check_codec, chk, repo, "C08", covered_by="codec_roundtrip", rules=tuple(f"C08-K{i}" for i in range(1, 8)))
     chk.count("functions", 14)
